@@ -169,7 +169,7 @@ Proof.
   intros E HF HW HS.
   destruct (step_success_shape _ _ _ _ _ _ _ E HF HW HS) as [results [ER [EO [EE [ED EL]]]]].
   destruct (results_of_ok _ _ _ ER) as [_ [HC [_ ECo]]].
-  destruct (compile_ok_facts _ _ _ HC HS ECo) as [ND _]. apply NoDup_ckey_paths in ND.
+  destruct (compile_ok_facts _ _ _ HC HS ECo) as [ND _].
   rewrite EO. split; [exact ND|]. intro p.
   rewrite ED, EE, apply_app, lookup_apply_deletes.
   set (kept := filter (fun o => negb (skip phys_id st (hashes_of results) o)) results).
